@@ -221,6 +221,34 @@ def rule_update(ctx: Ctx) -> RuleResult:
             if has_in and flag_ok and isinstance(t, ast.BoolOp) and isinstance(t.op, ast.Or):
                 cond_ok = True
         if not cond_ok:
+            # the same decision in another spelling (De Morgan guard with `continue`, nested ifs ...): in every alternative under
+            # which the store is reached, the key is in the data or the optional flag is off
+            from ..shape import alternatives
+
+            keytxt, dtxt = norm(tgt.slice), norm(tgt.value)
+            for t, lab in ctx.ef._dominating_tests(cfg_of(f.node), st):
+                alts = alternatives(t, lab == "true")
+                flags = set()
+                good_all = bool(alts)
+                for alt in alts:
+                    in_data = (f"{keytxt} in {dtxt}", True) in alt
+                    off = [txt for txt, tr in alt if not tr and txt.isidentifier()]
+                    flag_off = False
+                    for nm in off:
+                        for d in flow.all_defs:
+                            if d.var != nm or d.kind != "assign":
+                                continue
+                            dn = next((n for n in own_nodes(f.node) if isinstance(n, ast.Assign) and n.value is d.value), None)
+                            via_value = d.value is not None and any(a.kind == "call" and a.text.endswith(".startswith") for a in flow.depends(d.value, d.node))
+                            via_ctrl = dn is not None and any(any(isinstance(c, ast.Call) and isinstance(c.func, ast.Attribute) and c.func.attr == "startswith"
+                                                                  for c in ast.walk(tt)) for tt, _ in ctx.ef._dominating_tests(cfg_of(f.node), dn))
+                            if via_value or via_ctrl:
+                                flag_off = True
+                    if not (in_data or flag_off):
+                        good_all = False
+                if good_all and any((f"{keytxt} in {dtxt}", True) in alt for alt in alts):
+                    cond_ok = True
+        if not cond_ok:
             problems.append(f"`{norm(st)}` is not under `key in data or not <optional>` with the optional flag taken from "
                             f"startswith(option_prefix)")
     strip = any(isinstance(n, ast.Call) and isinstance(n.func, ast.Attribute) and n.func.attr in ("replace", "removeprefix", "lstrip")
@@ -545,16 +573,22 @@ def rule_getwith(ctx: Ctx) -> RuleResult:
     else:
         if not all(("query", True) in facts_at(ctx, f, r) for r in qret):
             problems.append("the query form is not under `if query`")
+    def _is_rebuilt(v, r) -> bool:
+        if isinstance(v, ast.BoolOp):
+            return all(_is_rebuilt(x, r) for x in v.values)
+        if isinstance(v, ast.IfExp):
+            return _is_rebuilt(v.body, r) and _is_rebuilt(v.orelse, r)
+        if isinstance(v, ast.Name):
+            at = flow.node_of(r)
+            ds = flow.defs_reaching(at.id, v.id)
+            return bool(ds) and all(d.kind == "assign" and d.value is not None and _is_rebuilt(d.value, r) for d in ds)
+        return isinstance(v, ast.Call) and dotted(v.func) == "Sid"
+
     for r in _rets(f):
         v = r.value
         if _is_empty_sid(v) or r in qret:
             continue
-        if isinstance(v, ast.Name):
-            at = flow.node_of(r)
-            ds = flow.defs_reaching(at.id, v.id)
-            if ds and all(d.kind == "assign" and isinstance(d.value, ast.Call) and dotted(d.value.func) == "Sid" for d in ds):
-                continue
-        if isinstance(v, ast.Call) and dotted(v.func) == "Sid":
+        if _is_rebuilt(v, r):
             continue
         problems.append(f"`{norm(r)}` returns something that is not a rebuilt Sid")
     if problems:
